@@ -192,6 +192,33 @@ pub fn cmd_joinrec(args: &Args) -> i32 {
         }
         writeln!(f, "{}", json!({"W": w, "steps": steps})).unwrap();
     }
-    println!("{}", json!({"histories": n, "with_eviction": with_evict}));
+    // large partitions: 70+ events of one key on one side, arriving out of timestamp order, nothing evicted; then probes from the
+    // other side (the per-key buffers are searched, not just appended to)
+    let big = args.u64("big", 0);
+    for b in 0..big {
+        let w = 2u64;
+        let mut node = mk_node(w);
+        let mut steps = vec![];
+        let (mut nl, mut nr) = (0u64, 0u64);
+        let flip = b % 2 == 1; // odd: the large partition is on the right
+        let mut push = |node: &mut StreamJoinNode, left: bool, k: &str, ts: u64, nl: &mut u64, nr: &mut u64, steps: &mut Vec<Value>| {
+            let out = if left { *nl += 1; node.process_left(ev("L", *nl, k, ts, 0)) } else { *nr += 1; node.process_right(ev("R", *nr, k, ts, 0)) };
+            let st = node.get_stats();
+            steps.push(json!({"op": if left { "left" } else { "right" }, "key": k, "ts": ts, "f": 0, "w": 0,
+                              "pairs": sorted(out.iter().map(pair_ids).collect()), "nl": st.left_buffer_size, "nr": st.right_buffer_size}));
+        };
+        push(&mut node, !flip, "a", 60, &mut nl, &mut nr, &mut steps);            // one recent event first
+        for k in 0..(70 + rng.below(20)) {
+            let ts = 40 + ((k * 7 + rng.below(3)) % 21) as u64;                     // a backlog of older events, out of order
+            let key = if k % 9 == 8 { "b" } else { "a" };
+            push(&mut node, !flip, key, ts, &mut nl, &mut nr, &mut steps);
+        }
+        for ts in [41u64, 50, 59, 61, 38, 50] {
+            push(&mut node, flip, "a", ts, &mut nl, &mut nr, &mut steps);
+        }
+        push(&mut node, flip, "b", 45, &mut nl, &mut nr, &mut steps);
+        writeln!(f, "{}", json!({"W": w, "steps": steps})).unwrap();
+    }
+    println!("{}", json!({"histories": n + big, "with_eviction": with_evict, "big": big}));
     0
 }
